@@ -106,6 +106,11 @@ def _harness(c, cfg):
     c.prove("C17:in-space-action-is-not-rejected", rejected_at is None, info={"rejected_at": rejected_at, "exc": rejected_exc})
     if rejected_at is not None or executed is None:
         return
+    # ---- executed in the unit and mode the space was declared with
+    want_type = "Weights" if cfg.get("as_weights", True) else "NrContracts"
+    c.prove("C17:allocation-in-the-declared-unit(weights-vs-contracts)", type(executed.allocation).__name__ == want_type,
+            info=type(executed.allocation).__name__)
+    c.prove("C17:whole-lot-mode-as-declared", executed.fractional == cfg.get("fractional", True))
     # ---- executed as the allocation it denotes: cash entry ignored, zero entries dropped
     got = dict(executed.allocation.items())
     if kind == "sym":
@@ -124,7 +129,9 @@ def _harness(c, cfg):
             c.prove("C17:zero-entry-is-dropped", con not in got)
     c.prove("C17:no-foreign-allocation-entries", all(any(k_ is con for con in ep.space_contracts) for k_ in got))
     # residual held as cash: position*price = w*NLV_pre for every traded contract (C03), rest in cash
-    if cfg.get("as_weights", True):
+    if not cfg.get("fractional", True):
+        pass        # whole lots: quantities are truncated (C12 owns that); unit and mode were checked above
+    elif cfg.get("as_weights", True):
         nlv_pre = executed.context_pre.nlv
         total = 0.0
         for con in ep.contracts:       # the broker's snap-to-zero band is outside every claim
@@ -172,6 +179,10 @@ def configs(tier):
         add(N=4, M=0, action="nan@0", delay=d, inject_at=1, cash_in_space=True, as_weights=False)
         for kind in ("idx-neg", "idx-n", "idx-float", "idx-array", "idx-ok1", "idx-ok3"):
             add(N=4, M=0, action=kind, delay=d, inject_at=1, space="discrete", cash_in_space=(d == 1))
+        # discrete spaces declared in numbers of contracts / in whole lots
+        add(N=4, M=0, action="idx-ok1", delay=d, inject_at=1, space="discrete", as_weights=False, two_contracts=True)
+        add(N=4, M=0, action="idx-ok3", delay=d, inject_at=1, space="discrete", as_weights=False, cash_in_space=True)
+        add(N=4, M=0, action="idx-ok1", delay=d, inject_at=1, space="discrete", fractional=False)
     add(N=4, M=0, action="sym", delay=0, inject_at=1, two_contracts=True, cash_in_space=True, low=0.0, high=1.0)
     add(N=4, M=0, action="sym", delay=1, inject_at=1, two_contracts=True, cash_in_space=True, as_weights=False,
         low=-1.0, high=2.0)
